@@ -56,6 +56,9 @@ struct Pki {
     cross_delegate: Ent,
     /// unrelated root (not an anchor), a responder and an end-entity with the signer's serial under it
     other_ca: Ent,
+    /// a second CA under the same root with the SAME subject DN as `ca` but another key, and its delegate
+    twin_ca: Ent,
+    twin_delegate: Ent,
     other_delegate: Ent,
     self_signed_responder: Ent,
     wrong_key: Arc<Key>,
@@ -83,6 +86,9 @@ fn build_pki(topo: &'static str, slot: usize) -> Pki {
     } else {
         (Ent { cert: root.clone(), key: root_k.clone() }, vec![root.der.clone()])
     };
+    let twin_k = k(KeyKind::P256, 19);
+    let twin_cn = if topo == "3-level" { format!("c37 {topo} Issuing CA") } else { format!("c37 {topo} Root") };
+    let twin_ca = Ent { cert: sub_ca(&twin_cn, &twin_k), key: twin_k };
     let ca2_k = k(KeyKind::P256, 2);
     let ca2 = Ent { cert: sub_ca(&format!("c37 {topo} Second CA"), &ca2_k), key: ca2_k };
     let other_k = k(KeyKind::P256, 3);
@@ -112,6 +118,7 @@ fn build_pki(topo: &'static str, slot: usize) -> Pki {
     });
     let cross_delegate = issue_ee("c37 responder of the second CA", k(KeyKind::P256, 14), &ca2, &responder);
     let other_delegate = issue_ee("c37 responder of an unrelated root", k(KeyKind::P256, 15), &other_ca, &responder);
+    let twin_delegate = issue_ee("c37 responder of the same-named CA", k(KeyKind::P256, 20), &twin_ca, &responder);
     let ss_k = k(KeyKind::P256, 16);
     let mut ss = CertSpec::ee("c37 self-signed responder");
     responder(&mut ss);
@@ -135,6 +142,8 @@ fn build_pki(topo: &'static str, slot: usize) -> Pki {
         ca2,
         cross_delegate,
         other_ca,
+        twin_ca,
+        twin_delegate,
         other_delegate,
         self_signed_responder,
         wrong_key: k(KeyKind::P256, 18),
@@ -157,6 +166,9 @@ enum Binding {
     OtherSerial,
     /// issuer hashes of the unrelated root, serial of the signer
     OtherCaSameSerial,
+    /// issuer hashes of a CA with the same subject DN as the signer's issuer but another key (issuerNameHash
+    /// equal, issuerKeyHash different), serial of the signer
+    TwinCaSameSerial,
     /// two single responses: [sibling: `first`, signer: the case's status]
     MultiSignerSecond,
     /// two single responses: [signer: good, sibling: revoked]  (case status ignored → Good)
@@ -176,6 +188,11 @@ enum Responder {
     SelfSigned,
     Corrupted,
     WrongKey,
+    /// signed with the key of an unrelated self-made certificate, embedding [genuine delegate, that
+    /// certificate]: the signature verifies only against the *second* embedded certificate
+    ForgedSecondCert,
+    /// delegate of the same-named CA (chains to the trusted root)
+    TwinDelegate,
     /// produced by `openssl ocsp -index` (CA-signed / delegate)
     CliCa,
     CliDelegate,
@@ -223,7 +240,7 @@ impl Resp {
         matches!(self.responder, Ca | CaNoCerts | Delegate | DelegatePlusChain | DelegateByKey | CliCa | CliDelegate)
     }
     fn sig_ok(&self) -> bool {
-        !matches!(self.responder, Responder::Corrupted | Responder::WrongKey)
+        !matches!(self.responder, Responder::Corrupted | Responder::WrongKey | Responder::ForgedSecondCert)
     }
     fn concerns_signer(&self) -> bool {
         matches!(self.binding, Binding::Right | Binding::MultiSignerSecond | Binding::MultiSiblingRevoked)
@@ -268,11 +285,13 @@ fn make_response(p: &Pki, r: &Resp) -> Result<Vec<u8>, String> {
     let id_signer = pki_tsa::cert_id(&p.ca.cert, &p.ca.key, &p.ee.cert.spec.serial);
     let id_sibling = pki_tsa::cert_id(&p.ca.cert, &p.ca.key, &p.sibling.cert.spec.serial);
     let id_other_ca = pki_tsa::cert_id(&p.other_ca.cert, &p.other_ca.key, &p.ee.cert.spec.serial);
+    let id_twin_ca = pki_tsa::cert_id(&p.twin_ca.cert, &p.twin_ca.key, &p.ee.cert.spec.serial);
     let single = |id: &Vec<u8>, s: Status| (id.clone(), st(s), this_upd, Some(next_upd));
     let singles = match r.binding {
         Binding::Right => vec![single(&id_signer, r.status)],
         Binding::OtherSerial => vec![single(&id_sibling, r.status)],
         Binding::OtherCaSameSerial => vec![single(&id_other_ca, r.status)],
+        Binding::TwinCaSameSerial => vec![single(&id_twin_ca, r.status)],
         Binding::MultiSignerSecond => vec![single(&id_sibling, Status::Good), single(&id_signer, r.status)],
         Binding::MultiSiblingRevoked => vec![single(&id_signer, Status::Good), single(&id_sibling, Status::Revoked)],
     };
@@ -282,10 +301,12 @@ fn make_response(p: &Pki, r: &Resp) -> Result<Vec<u8>, String> {
         Delegate | DelegateByKey | Corrupted => (&p.delegate.cert, &p.delegate.key, vec![p.delegate.cert.der.clone()]),
         DelegatePlusChain => (&p.delegate.cert, &p.delegate.key, vec![p.delegate.cert.der.clone(), p.ca.cert.der.clone()]),
         WrongKey => (&p.delegate.cert, &p.wrong_key, vec![p.delegate.cert.der.clone()]),
+        ForgedSecondCert => (&p.delegate.cert, &p.self_signed_responder.key, vec![p.delegate.cert.der.clone(), p.self_signed_responder.cert.der.clone()]),
         SiblingEe => (&p.sibling.cert, &p.sibling.key, vec![p.sibling.cert.der.clone()]),
         DelegateNoEku => (&p.delegate_no_eku.cert, &p.delegate_no_eku.key, vec![p.delegate_no_eku.cert.der.clone()]),
         CrossCaDelegate => (&p.cross_delegate.cert, &p.cross_delegate.key, vec![p.cross_delegate.cert.der.clone(), p.ca2.cert.der.clone()]),
         OtherRootDelegate => (&p.other_delegate.cert, &p.other_delegate.key, vec![p.other_delegate.cert.der.clone(), p.other_ca.cert.der.clone()]),
+        TwinDelegate => (&p.twin_delegate.cert, &p.twin_delegate.key, vec![p.twin_delegate.cert.der.clone(), p.twin_ca.cert.der.clone()]),
         SelfSigned => (&p.self_signed_responder.cert, &p.self_signed_responder.key, vec![p.self_signed_responder.cert.der.clone()]),
         CliCa | CliDelegate => unreachable!(),
     };
@@ -583,6 +604,7 @@ fn main() {
         (B::OtherSerial, R::Ca, V::Current),
         (B::OtherCaSameSerial, R::OtherRootDelegate, V::Current),
         (B::OtherCaSameSerial, R::Delegate, V::Current),
+        (B::TwinCaSameSerial, R::TwinDelegate, V::Current),
         (B::Right, R::SiblingEe, V::Current),
         (B::Right, R::DelegateNoEku, V::Current),
         (B::Right, R::CrossCaDelegate, V::Current),
@@ -590,6 +612,7 @@ fn main() {
         (B::Right, R::SelfSigned, V::Current),
         (B::Right, R::Corrupted, V::Current),
         (B::Right, R::WrongKey, V::Current),
+        (B::Right, R::ForgedSecondCert, V::Current),
         (B::MultiSignerSecond, R::Delegate, V::Current),
         (B::MultiSignerSecond, R::SiblingEe, V::Current),
         (B::Right, R::CliCa, V::Current),
@@ -709,7 +732,7 @@ fn main() {
                     let status_seen = if v.signature_and_responder_ok { v.status.clone() } else { exp_status.clone() };
                     // openssl judges the responder against the issuer named in the certId; for a certId of another CA
                     // that is a different question from "may this responder speak for the signer's CA"
-                    let auth_comparable = r.binding != Binding::OtherCaSameSerial;
+                    let auth_comparable = !matches!(r.binding, Binding::OtherCaSameSerial | Binding::TwinCaSameSerial);
                     if (auth_comparable && v.signature_and_responder_ok != exp_auth) || status_seen != exp_status || (v.signature_and_responder_ok && !exp_status.is_empty() && v.times_ok != exp_times) {
                         cli_disagree += 1;
                         run.inconclusive(format!(
@@ -802,6 +825,7 @@ fn main() {
                 Binding::MultiSiblingRevoked => "right+sibling-revoked",
                 Binding::OtherSerial => "other-serial",
                 Binding::OtherCaSameSerial => "other-ca",
+                Binding::TwinCaSameSerial => "same-named-ca",
             };
             // why the generator says a response must not matter (cause class of a differential alarm)
             let inert_reason = |x: &Resp| -> &'static str {
